@@ -58,13 +58,18 @@ func (s *Server) cmdScan(msg *Message) (res resp.Value, err error) {
 		if sw.output == outputCount && len(sw.wheres) == 0 &&
 			len(sw.whereins) == 0 && len(sw.whereevals) == 0 &&
 			sw.globEverything {
-			// the cursor is unsigned: compare before converting, a value above
-			// the int range would turn negative and inflate the count
-			count := 0
-			if args.cursor < uint64(sw.col.Count()) {
-				count = sw.col.Count() - int(args.cursor)
+			// what the counting iteration returns: the entries after the
+			// cursor (unsigned: compare before subtracting), at most LIMIT
+			count := uint64(sw.col.Count())
+			if args.cursor >= count {
+				count = 0
+			} else {
+				count -= args.cursor
 			}
-			sw.count = uint64(count)
+			if count > sw.limit {
+				count = sw.limit
+			}
+			sw.count = count
 		} else {
 			limits := multiGlobParse(sw.globs, args.desc)
 			if limits[0] == "" && limits[1] == "" {
